@@ -60,16 +60,16 @@ def bearing(dx, dy):
 
 def run_job(j):
     H, W = j["H"], j["W"]
-    vals = np.array([[np.nan if v == "nan" else (np.inf if v == "inf" else float(v)) for v in row]
+    vals = np.array([[np.nan if v == "nan" else (np.inf if v == "inf" else (-np.inf if v == "-inf" else float(v))) for v in row]
                      for row in j["vals"]], dtype=np.float64)
     # "scale": the integer lattice coordinates are multiplied by a (possibly non-binary) cell size;
     # observed distances are mapped back to lattice units before encoding
     sc = float(j.get("scale", 1.0))
-    xs = np.array(j["xs"], dtype=np.float64) * sc
-    ys = np.array(j["ys"], dtype=np.float64) * sc
+    xs = np.array(j["xs"], dtype=np.float64) * sc + float(j.get("xoff", 0.0))
+    ys = np.array(j["ys"], dtype=np.float64) * sc + float(j.get("yoff", 0.0))
     metric = j["metric"]
     mx = j.get("max")
-    targets = j.get("targets") or []
+    targets = [(np.inf if t == "inf" else (-np.inf if t == "-inf" else t)) for t in (j.get("targets") or [])]
     tv = np.asarray(targets, dtype=np.float64)
     if len(targets) == 0:
         mask = (vals != 0) & np.isfinite(vals)
@@ -136,14 +136,36 @@ def run_job(j):
         r = xr.DataArray(data, dims=[dy, dx], coords={dy: ys.copy(), dx: xs.copy()})
         if j.get("chunks"):
             import dask.array as da
-            r.data = da.from_array(data, chunks=(tuple(j["chunks"][0]), tuple(j["chunks"][1])))
+            if j.get("joint"):
+                if _shared[0] is None:
+                    _shared[0] = da.from_array(data, chunks=(tuple(j["chunks"][0]), tuple(j["chunks"][1])))
+                r.data = _shared[0]
+            else:
+                r.data = da.from_array(data, chunks=(tuple(j["chunks"][0]), tuple(j["chunks"][1])))
         return r
 
     def comp(a):
         d = a.data
         if hasattr(d, "compute"):
-            d = d.compute(scheduler=j.get("scheduler", "synchronous"))
+            if j.get("joint") and _shared[0] is not None:
+                # evaluate together with the same call on a SECOND raster that shares the dask array but has
+                # other coordinates: the two lazy results must not interfere (graph key collisions)
+                import dask
+                other = _shared[1](a.name)
+                d, _o = dask.compute(d, other.data, scheduler=j.get("scheduler", "synchronous"))
+            else:
+                d = d.compute(scheduler=j.get("scheduler", "synchronous"))
         return np.asarray(d)
+
+    _shared = [None, None]
+
+    def second(name):
+        dy, dx = j.get("dims", ["y", "x"])
+        r2 = xr.DataArray(_shared[0], dims=[dy, dx], coords={dy: ys * 3.0 + 11.0, dx: xs * 2.0 - 5.0})
+        f = {"proximity": P.proximity, "allocation": P.allocation, "direction": P.direction}
+        return f[_cur[0]](r2, **kw)
+    _cur = ["proximity"]
+    _shared[1] = second
 
     err = None
     evs = []
@@ -158,7 +180,9 @@ def run_job(j):
         p = comp(rp)
         evs = [dict(e) for e in _events]
         P._process_proximity_line = _orig
+        _cur[0] = "allocation"
         a = comp(P.allocation(mk(), **kw))
+        _cur[0] = "direction"
         d = comp(P.direction(mk(), **kw))
     except Exception as ex:  # the call itself failed
         P._process_proximity_line = _orig
@@ -173,6 +197,7 @@ def run_job(j):
     # it must be the value of a target cell lying at the reported distance (target values may repeat)
     distinct = sorted({float(v) for v in vals.ravel() if not np.isnan(v)})
     code = {v: i for i, v in enumerate(distinct)}
+    tvals = {float(vals[r, c]) for r in range(H) for c in range(W) if mask[r, c]}
     case["vcode"] = [[(-1 if np.isnan(v) else code[float(v)]) for v in row] for row in vals]
     prox, alloc, dirs, dirT = [], [], [], []
     for r in range(H):
@@ -181,7 +206,14 @@ def run_job(j):
             v = float(p[r, c])
             pr.append(-1 if np.isnan(v) else enc(v))
             av = float(a[r, c])
-            ar.append(-1 if np.isnan(av) else code.get(av, -2))
+            if np.isnan(av):
+                ar.append(-1)
+            else:
+                # the allocation raster is float32 by design: a value is recognised through its single-precision
+                # rounding; if several raster values round to it, prefer one carried by a target cell
+                cands = [v for v in distinct if np.float32(v) == np.float32(av)]
+                tcands = [v for v in cands if v in tvals]
+                ar.append(code[(tcands or cands)[0]] if cands else -2)
             dv = float(d[r, c])
             if np.isnan(dv):
                 dr.append(-1)
@@ -208,7 +240,13 @@ def main():
     jobs = json.load(sys.stdin)["jobs"]
     out = sys.stdout
     for j in jobs:
-        out.write(json.dumps(run_job(j)) + "\n")
+        try:
+            c = run_job(j)
+        except Exception as ex:   # e.g. the library's metric returned NaN: still one line per job
+            P._process_proximity_line = _orig
+            c = {"H": j["H"], "W": j["W"], "job": j, "tag": j.get("tag", ""),
+                 "error": "observation could not be encoded: %s: %s" % (type(ex).__name__, str(ex)[:200])}
+        out.write(json.dumps(c) + "\n")
     out.flush()
 
 
